@@ -60,6 +60,12 @@ def gen_cases(ctx):
     for n in (1, 2, 3):
         t = rand_string(rng, n, allow_empty=False); t["ops"][0][0] = n + rng.randrange(0, 3); t["coef"] = coef_for_exp(rng, "generic")
         mk("exp", n, t); mk("exp_factor", n, dict(t), factor=coef_for_exp(rng, "generic")); mk("neg_i_dt", n, dict(t, coef=[float2bits(0.7), float2bits(0.0)]), dt=float2bits(0.3))
+    # out-of-range factors whose exponent vanishes (alpha = 0): still an error
+    for n in (1, 2, 3):
+        t = rand_string(rng, n, allow_empty=False); t["ops"][0][0] = n + rng.randrange(0, 3)
+        z = [float2bits(0.0), float2bits(0.0)]
+        mk("exp", n, dict(t, coef=z)); mk("exp_factor", n, dict(t, coef=coef_for_exp(rng, "generic")), factor=z)
+        mk("exp_factor", n, dict(t, coef=z), factor=coef_for_exp(rng, "generic")); mk("neg_i_dt", n, dict(t, coef=[float2bits(0.7), float2bits(0.0)]), dt=float2bits(0.0))
     # group law on the implementation's outputs
     for _ in range(40 if not ctx.thorough() else 150):
         n = rng.randrange(1, 6)
